@@ -1,11 +1,14 @@
 (* C16 — Splitting and merging owned slices partitions them exactly.
    The rotate-in-place code of split_off equals the specification for every range; the parts
-   partition the original.  PARTIAL: split_at/first/last, partition, merge, into_flattened and
-   the independence of the parts (growing / dropping one never changes the other) are checked on
-   the implementation (capacities add up, capacity >= len, sibling contents re-read after
-   follow-up operations) but not proved. *)
-From Coq Require Import List Arith.
-From BS Require Import Colls CollsProofs.
+   partition the original.  split_at, split_first / split_last (and their split_off_ twins),
+   merge and partition (partition_in_place + split_at) are modelled in Parts.v as windows
+   (offset, length) of one buffer and proved to divide a slice exactly (PartsProofs.v).
+   PARTIAL: into_flattened, split_at_spare, capacities of split vectors and the independence of
+   the parts under follow-up operations (growing / dropping one never changes the other) are
+   checked on the implementation (capacities add up, capacity >= len, sibling contents re-read
+   after follow-up operations) but not proved. *)
+From Coq Require Import List Arith Permutation.
+From BS Require Import Colls CollsProofs Parts PartsProofs.
 Import ListNotations.
 
 Theorem C16_split_off_code_spec : forall (A : Type) (l : list A) a b, a <= b <= length l ->
@@ -19,6 +22,86 @@ Theorem C16_split_off_rejects_bad_ranges : forall l a b,
   unwound (op_split_off l a b) = true <-> (b < a \/ length l < b).
 Proof. exact split_off_panics_iff. Qed.
 
+(* split_at: panics iff the index is beyond the length; otherwise the two windows are the prefix
+   and the suffix, adjacent, disjoint, inside the original, lengths adding up *)
+Theorem C16_split_at_panics_iff : forall p mid, split_at p mid = None <-> plen p < mid.
+Proof. exact split_at_panics_iff. Qed.
+
+Theorem C16_split_at_spec : forall (A : Type) (buf : list A) p mid a b,
+  split_at p mid = Some (a, b) ->
+  view buf a = firstn mid (view buf p) /\ view buf b = skipn mid (view buf p) /\
+  view buf a ++ view buf b = view buf p /\
+  plen a + plen b = plen p /\ poff a = poff p /\ poff b = poff a + plen a /\
+  pdisjoint a b /\ (in_buf buf p -> in_buf buf a /\ in_buf buf b).
+Proof. exact @split_at_spec. Qed.
+
+Theorem C16_split_first_spec : forall (A : Type) (buf : list A) p i r,
+  split_first p = Some (i, r) ->
+  view buf (mkPart i 1) ++ view buf r = view buf p /\ plen r + 1 = plen p /\
+  pdisjoint (mkPart i 1) r /\ (in_buf buf p -> in_buf buf (mkPart i 1) /\ in_buf buf r).
+Proof. exact @split_first_spec. Qed.
+
+Theorem C16_split_last_spec : forall (A : Type) (buf : list A) p i r,
+  split_last p = Some (i, r) ->
+  view buf r ++ view buf (mkPart i 1) = view buf p /\ plen r + 1 = plen p /\
+  pdisjoint r (mkPart i 1) /\ (in_buf buf p -> in_buf buf (mkPart i 1) /\ in_buf buf r).
+Proof. exact @split_last_spec. Qed.
+
+Theorem C16_split_first_none_iff : forall p, split_first p = None <-> plen p = 0.
+Proof. exact split_first_none_iff. Qed.
+Theorem C16_split_last_none_iff : forall p, split_last p = None <-> plen p = 0.
+Proof. exact split_last_none_iff. Qed.
+
+(* merge accepts exactly a window followed by its right neighbour, and then returns both, in order *)
+Theorem C16_merge_accepts_iff : forall a b, (exists m, merge a b = Some m) <-> poff a + plen a = poff b.
+Proof. exact merge_accepts_iff. Qed.
+
+Theorem C16_merge_spec : forall (A : Type) (buf : list A) a b m,
+  in_buf buf a -> merge a b = Some m ->
+  view buf m = view buf a ++ view buf b /\ plen m = plen a + plen b /\ poff m = poff a.
+Proof. exact @merge_spec. Qed.
+
+Theorem C16_merge_restores_split : forall p mid a b, split_at p mid = Some (a, b) -> merge a b = Some p.
+Proof. exact merge_split_at. Qed.
+
+Theorem C16_merge_rejects_swapped_halves : forall p mid a b,
+  split_at p mid = Some (a, b) -> 0 < plen p -> merge b a = None.
+Proof. exact merge_split_at_swapped. Qed.
+
+Theorem C16_merge_of_three_windows : forall (A : Type) (l : list A) i j x y,
+  i <= j -> j <= length l -> x <= 2 -> y <= 2 ->
+  0 < plen (three l i j x) -> 0 < plen (three l i j y) ->
+  (pr_panic (op_merge l i j x y) = false <-> y = x + 1 \/ (x = 0 /\ y = 2 /\ i = j)).
+Proof. exact @op_merge_spec. Qed.
+
+(* partition: the find / rfind / swap loop of partition_in_place leaves a permutation with the
+   elements that satisfy the predicate first, and returns their number; partition never panics
+   and its two parts are exactly those elements and the others *)
+Theorem C16_partition_in_place_spec : forall (A : Type) (p : A -> bool) (l : list A),
+  let '(m, k) := partition_in_place p l in
+  Permutation l m /\ sorted_by p m k /\ k = length (filter p l).
+Proof. exact @partition_in_place_spec. Qed.
+
+Theorem C16_partition_spec : forall (A : Type) (p : A -> bool) (l : list A),
+  let r := op_partition p l in
+  pr_panic r = false /\ Permutation l (pr_first r ++ pr_second r) /\
+  Forall (fun x => p x = true) (pr_first r) /\ Forall (fun x => p x = false) (pr_second r) /\
+  length (pr_first r) = length (filter p l).
+Proof. exact @op_partition_spec. Qed.
+
 Print Assumptions C16_split_off_code_spec.
+Print Assumptions C16_split_at_panics_iff.
+Print Assumptions C16_split_at_spec.
+Print Assumptions C16_split_first_spec.
+Print Assumptions C16_split_last_spec.
+Print Assumptions C16_split_first_none_iff.
+Print Assumptions C16_split_last_none_iff.
+Print Assumptions C16_merge_accepts_iff.
+Print Assumptions C16_merge_spec.
+Print Assumptions C16_merge_restores_split.
+Print Assumptions C16_merge_rejects_swapped_halves.
+Print Assumptions C16_merge_of_three_windows.
+Print Assumptions C16_partition_in_place_spec.
+Print Assumptions C16_partition_spec.
 Print Assumptions C16_split_off_partition.
 Print Assumptions C16_split_off_rejects_bad_ranges.
